@@ -88,23 +88,52 @@ def Stump.add (nonZero : H) (s : Stump H) (adds : List H) : Out (Stump H × HP H
   let (s', upd) ← loop adds nAdds s []
   pure (s', sortHP (upd.map (fun e => (e.2, e.1))), allDeleted)
 
-/-- `Stump.del`: verify, recompute the touched roots with zeroed targets, write them back -/
-def Stump.del (s : Stump H) (delHashes : List H) (targets : List U64) (proofHashes : List H) :
-    Out (Stump H × HP H) := do
-  let rootIndexes ← verify s.numLeaves s.roots delHashes targets proofHashes
-  let r ← calculateHashes s.numLeaves none targets proofHashes
-  if r.roots.length ≠ rootIndexes.length then .err
-  else
-    let roots := (rootIndexes.zip r.roots).foldl (fun rs (i, h) => rs.set i h) s.roots
-    pure ({ s with roots := roots }, r.nodes)
+/-- `Stump.del` with Go's statement order: `Verify` (reads only), the second
+`calculateHashes` with zeroed targets (reads only), the length check, and only then the
+write-back of the modified roots.  First component: the stump the receiver holds when
+`del` returns, whatever the outcome. -/
+def Stump.delSt (s : Stump H) (delHashes : List H) (targets : List U64) (proofHashes : List H) :
+    Stump H × Out (HP H) :=
+  match verify s.numLeaves s.roots delHashes targets proofHashes with
+  | .ok rootIndexes =>
+    match calculateHashes s.numLeaves none targets proofHashes with
+    | .ok r =>
+      if r.roots.length ≠ rootIndexes.length then (s, .err)
+      else
+        let roots := (rootIndexes.zip r.roots).foldl (fun rs (i, h) => rs.set i h) s.roots
+        ({ s with roots := roots }, .ok r.nodes)
+    | .err => (s, .err)
+    | .panic => (s, .panic)
+    | .hang => (s, .hang)
+  | .err => (s, .err)
+  | .panic => (s, .panic)
+  | .hang => (s, .hang)
 
-/-- `Stump.Update` -/
+/-- `Stump.Update = del ; add`, state-leaving form (see `delSt`).  `add` cannot return an
+error; if it panics on a malformed stump the state left behind is unspecified (the model
+returns the state after `del`). -/
+def Stump.updateSt (nonZero : H) (s : Stump H) (delHashes addHashes : List H) (targets : List U64)
+    (proofHashes : List H) : Stump H × Out (UpdateData H) :=
+  match s.delSt delHashes targets proofHashes with
+  | (s1, .ok newDel) =>
+    match s1.add nonZero addHashes with
+    | .ok (s2, newAdd, toDestroy) =>
+      (s2, .ok { toDestroy := toDestroy, prevNumLeaves := s1.numLeaves, newDel := newDel, newAdd := newAdd })
+    | .err => (s1, .err)
+    | .panic => (s1, .panic)
+    | .hang => (s1, .hang)
+  | (s1, .err) => (s1, .err)
+  | (s1, .panic) => (s1, .panic)
+  | (s1, .hang) => (s1, .hang)
+
+/-- `Stump.Update` as an outcome carrying the new stump -/
 def Stump.update (nonZero : H) (s : Stump H) (delHashes addHashes : List H) (targets : List U64)
-    (proofHashes : List H) : Out (Stump H × UpdateData H) := do
-  let (s1, newDel) ← s.del delHashes targets proofHashes
-  let prev := s1.numLeaves
-  let (s2, newAdd, toDestroy) ← s1.add nonZero addHashes
-  pure (s2, { toDestroy := toDestroy, prevNumLeaves := prev, newDel := newDel, newAdd := newAdd })
+    (proofHashes : List H) : Out (Stump H × UpdateData H) :=
+  match s.updateSt nonZero delHashes addHashes targets proofHashes with
+  | (s2, .ok ud) => .ok (s2, ud)
+  | (_, .err) => .err
+  | (_, .panic) => .panic
+  | (_, .hang) => .hang
 
 end
 end UtreexoVerif.Model
